@@ -205,7 +205,7 @@ fn bad_lit(rng: &mut Rng, s: &Schema, ty: &Ty, depth: usize) -> Option<String> {
             })
         }
         Ty::Named(n) => match n.as_str() {
-            "Int" => Some((*rng.pick(&["\"x\"", "1.5", "true", "{a: 1}", "[1]", "V00"])).to_string()),
+            "Int" => Some((*rng.pick(&["\"x\"", "1.5", "true", "{a: 1}", "[1]", "V00", "2147483648", "-2147483649", "123456789012345678901"])).to_string()),
             "Float" => Some((*rng.pick(&["\"x\"", "true", "[1.5]"])).to_string()),
             "String" => Some((*rng.pick(&["1", "true", "V00", "{s: \"x\"}"])).to_string()),
             "Boolean" => Some((*rng.pick(&["1", "\"true\"", "[true]"])).to_string()),
@@ -274,6 +274,7 @@ const MUTATIONS: &[&str] = &[
     "inline-leaf-target", "undefined-spread", "fragment-cycle", "impossible-spread", "unknown-directive",
     "directive-wrong-location", "directive-repeated", "directive-bad-arg", "directive-missing-arg", "directive-unknown-arg",
     "unspread-fragment-bad-field", "same-interface-inline-bad-field", "undefined-var-in-custom-scalar",
+    "int-out-of-range",
 ];
 
 fn inject(rng: &mut Rng, s: &Schema, doc: &mut Doc, kind: &str) -> Option<Fault> {
@@ -376,6 +377,24 @@ fn inject(rng: &mut Rng, s: &Schema, doc: &mut Doc, kind: &str) -> Option<Fault>
                 }
             }
             None
+        }
+        "int-out-of-range" => {
+            // an Int argument (possibly inside a list) gets a literal outside the signed 32-bit range (/repo commit 556742c)
+            let int_arg = |a: &Arg| a.ty.named() == "Int";
+            let (sl, k) = pick_field(rng, doc, &slots, |sl, sel| typed(sl) && match sel { Sel::Field { name, .. } => field_def(s, sl.parent.as_ref().unwrap(), name).map_or(false, |f| f.args.iter().any(int_arg)), _ => false })?;
+            let id = sl.id.clone();
+            let fname = match &sels_at(doc, &id)[k] { Sel::Field { name, .. } => name.clone(), _ => unreachable!() };
+            let fd = field_def(s, sl.parent.as_ref().unwrap(), &fname)?.clone();
+            let a = fd.args.iter().find(|a| int_arg(a))?.clone();
+            let big = (*rng.pick(&["2147483648", "-2147483649", "4294967296", "99999999999999999999"])).to_string();
+            fn wrap_lit(t: &Ty, v: &str, rng: &mut Rng) -> String { match t { Ty::NonNull(i) => wrap_lit(i, v, rng), Ty::List(i) => if rng.chance(1, 4) { wrap_lit(i, v, rng) } else { format!("[{}]", wrap_lit(i, v, rng)) }, Ty::Named(_) => v.to_string() } }
+            let v = wrap_lit(&a.ty, &big, rng);
+            if let Sel::Field { args, alias, .. } = &mut sels_at_mut(doc, &id)[k] {
+                args.retain(|(n, _)| n != &a.name);
+                args.push((a.name.clone(), v.clone()));
+                if alias.is_none() { *alias = Some("kx".into()); }
+            }
+            Some(Fault { rule: "literal_types", what: format!("{}: {} for type {} at {}", a.name, v, a.ty.render(), describe(doc, &id)), site: Site::Slot(id) })
         }
         "dup-var" => {
             let i = (0..doc.ops.len()).filter(|i| !doc.ops[*i].vars.is_empty()).collect::<Vec<_>>();
@@ -781,6 +800,7 @@ fn corpus() -> Vec<(&'static str, &'static str, Vec<&'static str>, &'static str)
         // spec-valid documents the implementation rejects (C04 known findings)
         (S1, "query Q($v: Int) { a { a(x: $v) } }\n", vec!["c04:variable-at-position-with-default-rejected"], "nullable variable at a non-null argument that has a default value"),
         (S1, "subscription S { s s }\n", vec!["c04:subscription-same-root-field-twice-rejected"], "the same root field twice is one response key"),
+        (S1, "query Q { a: n(x: 2147483647) b: n(x: -2147483648) c: n(x: 2147483648) d: n(x: -2147483649) a2: a { a(f: 2147483648, ids: [99999999999]) } }\n", vec![], "Int literals at and beyond the signed 32-bit range (Float and ID take any integer)"),
     ]
 }
 
